@@ -1,6 +1,7 @@
 package main
 
 import (
+	"time"
 	"bufio"
 	"context"
 	"fmt"
@@ -87,6 +88,9 @@ func (l *lineFaultReader) Read(p []byte) (int, error) {
 	}
 	return n, err
 }
+
+// calls of Exclusive Maps in progress, and the most seen at once since the last reset
+var xActive, xMax int64
 
 func faultMarker(node string) string { return "injected-fault-" + node }
 
@@ -303,7 +307,21 @@ func (e *progEnv) build(name string, op []string) bigslice.Slice {
 	case "mapp":
 		return bigslice.Map(e.mapSrc(op[1], op[2]), mapFn(op[2]), bigslice.Procs(atoi(op[3])))
 	case "mapx":
-		return bigslice.Map(e.mapSrc(op[1], op[2]), mapFn(op[2]), bigslice.Exclusive)
+		// an Exclusive Map; its calls record how many of them are in progress at once (tasks of an exclusive operator must
+		// have the executor's procs to themselves)
+		fnx := mapFn(op[2])
+		return bigslice.Map(e.mapSrc(op[1], op[2]), func(k, v int64) (int64, int64) {
+			n := atomic.AddInt64(&xActive, 1)
+			for {
+				m := atomic.LoadInt64(&xMax)
+				if n <= m || atomic.CompareAndSwapInt64(&xMax, m, n) {
+					break
+				}
+			}
+			time.Sleep(300 * time.Microsecond)
+			atomic.AddInt64(&xActive, -1)
+			return fnx(k, v)
+		}, bigslice.Exclusive)
 	case "count", "countm":
 		c := progCounters[atoi(op[2])]
 		var opts []bigslice.Pragma
